@@ -8,24 +8,24 @@ props={}
 for l in open('/verif/properties.jsonl'):
     p=json.loads(l); props[p['id']]=p
 tried={
-'C01':["mutation dispatch iterating the insertion list","revoking the last reactor of one kind on a component dropping the other kinds' entry (react_cache)","token construction de-duplicating triggers of one bundle","replay loop over postponed commands skipping the element behind a replayed one","revoke loop aborted by a `return` at an entity trigger whose entity is gone"],
-'C02':["replay of postponed commands skipping some runs","postponed-buffer prefix skipping with nested self-recursion","buffer append swapping buffers between two busy systems","entry poll moved after the callback was taken (root aborts reactions targeting itself)","entity-event fast path that checks the event target instead of the reactor for liveness"],
-'C03':["abort path skipping event setup","broadcast reader not checking the reacting flag","ticket counter reset at root","exclusive system's cleanup run after its queued commands were flushed","`rev().position()` index used as a forward index in the entity-reaction tracker"],
-'C04':["cleanup moved after apply_deferred","reacting flag kept until the last reader of an event","conditional flush in exclusive reactors","postponed run finished with the outer run's cleanup","`once` no longer despawning itself (second in-flight despawn reaction never cleans up)"],
-'C05':["reader counter off by one","pruning postponed commands of a dead system","zero-listener entity event leaking its data entity","reader counter counting only live reactors while dead ones are still scheduled","entity reactions finished with the entity-event cleanup (decrementing another payload's reader count)"],
-'C06':["entity revoke ignoring the reactor kind","revocation loop stopping at a dead entity","binary search in revoke over an unsorted list","per-component entry with three kind lists dropped when one list empties","RevokeToken::new_from de-duplicating reactor types"],
-'C07':["despawn tracker keeping its handle","revoke dropping other kinds' entries","token de-duplicating triggers (get_reactor_types)","revoke loop returning at an entity without EntityReactors","despawn tracker purging entries with older tickets"],
-'C08':["despawn map entry not removed","despawn tracker replaced on re-registration","removal checker skipped when the buffered event count repeats between frames","removal checker unregistered when the last type-wide reactor of a component is revoked","removal buffer de-duplicated with Vec::dedup"],
-'C09':["postponed replay only at root","swap_remove in the postponed buffer","exit-boundary poll moved before callback reinsertion","append of surviving postponed commands reversing their order","despawn notification drain stopping (map_while) at an entity without reactors"],
-'C10':["racy strong_count()==1 check-then-send","non-recursive collection","unwrap on a missing entity in the collector","collector handling only one entity per call","collector de-duplicating by entity index","repeated setup_auto_despawn replacing the channel","bounded channel + try_send losing notifications past 64 pending"],
-'C11':["tree counter never reset","postponed abort skipping setup (tracker entry/data entity leak)","garbage collection snapshotting the channel once (chained auto-despawn)","queue append stranding live postponed commands in a spare buffer","`once` no longer despawning itself (despawn tracker left reading)"],
-'C12':["tracker taking the last entry instead of the matching one","swap_remove in the postponed buffer","tracker pruning older entries","re-merge of retained postponed commands with push_front reversing them","removal reactions queued in two passes (entity-specific of all entities first)"],
-'C13':["system re-initialised on its 5th run","exclusive system losing Locals after returning WarnErr","App::add_reactor sharing one system between two calls with the same closure type","cleanup-less run path never promoting New to Initialized (exclusive Locals rebuilt)","exclusive system re-initialised when the world's change tick moved past its last run"],
-'C14':["set_if_neq triggering unconditionally","mutation trigger dropped for a despawned entity","ReactiveMut::get_mut triggering on lookup failure","per-component reactor entry dropped when one kind list empties","resource trigger skipped when the resource is absent at application time"],
-'C15':["one-off reactor not revoking its triggers","two despawn triggers of one `once` in a batch both firing","`once` registered as persistent (empty bundle / revoked before firing never collected)","token type list de-duplicated so one duplicate registration survives revocation","revoke loop aborted by a `return` at an entity trigger whose entity is gone"],
-'C16':["entity-world-reactor data removed unconditionally","multi-entity remove returning early","EntityReactor::remove ignoring the trigger kind","per-component reactor entry dropped when one kind list empties (react_cache)","EntityReactors::remove removing only the first matching entry"],
-'C17':["spawned system not reinserted after the call","SysName ignoring the function type","syscall state dropped on some calls","named_syscall get-or-insert replacing a registered system","spawned_syscall returning Err when the system despawns itself during the call","CallbackSystem re-initialising on every run (change-detection baseline reset)","apply_deferred skipped when has_deferred() is false (Commands inside a ParamSet)"],
-'C18':["abort path skipping cleanup","postponed commands of a dead system discarded without releasing payloads","insert instead of try_insert on a stale entity","broadcast/entity-event scheduling skipping dead reactors that were counted as readers","revoke loop aborted by a `return` at a stale entity"],
+'C01':["mutation dispatch iterating the insertion list","revoking the last reactor of one kind on a component dropping the other kinds' entry (react_cache)","token construction de-duplicating triggers of one bundle","replay loop over postponed commands skipping the element behind a replayed one","revoke loop aborted by a `return` at an entity trigger whose entity is gone","ReactPlugin overwriting an existing ReactCache (reactors added before the plugin)"],
+'C02':["replay of postponed commands skipping some runs","postponed-buffer prefix skipping with nested self-recursion","buffer append swapping buffers between two busy systems","entry poll moved after the callback was taken (root aborts reactions targeting itself)","entity-event fast path that checks the event target instead of the reactor for liveness","apply_deferred skipped when has_deferred() is false (Commands inside a ParamSet)"],
+'C03':["abort path skipping event setup","broadcast reader not checking the reacting flag","ticket counter reset at root","exclusive system's cleanup run after its queued commands were flushed","`rev().position()` index used as a forward index in the entity-reaction tracker","flush after the removal/despawn poll made conditional (pending exclusive cleanup not applied before a direct SystemCommand::apply)"],
+'C04':["cleanup moved after apply_deferred","reacting flag kept until the last reader of an event","conditional flush in exclusive reactors","postponed run finished with the outer run's cleanup","`once` no longer despawning itself (second in-flight despawn reaction never cleans up)","EventAccessTracker::start popping the newest prepared entry instead of looking up its ticket"],
+'C05':["reader counter off by one","pruning postponed commands of a dead system","zero-listener entity event leaking its data entity","reader counter counting only live reactors while dead ones are still scheduled","entity reactions finished with the entity-event cleanup (decrementing another payload's reader count)","entity-event reaction returning early when the event target is dead (reader share never released)"],
+'C06':["entity revoke ignoring the reactor kind","revocation loop stopping at a dead entity","binary search in revoke over an unsorted list","per-component entry with three kind lists dropped when one list empties","RevokeToken::new_from de-duplicating reactor types","broadcast revoke taking the list out of the map and returning early on a miss"],
+'C07':["despawn tracker keeping its handle","revoke dropping other kinds' entries","token de-duplicating triggers (get_reactor_types)","revoke loop returning at an entity without EntityReactors","despawn tracker purging entries with older tickets","DespawnTracker component re-inserted (dropping the old one) when the map entry had been erased by a revoke"],
+'C08':["despawn map entry not removed","despawn tracker replaced on re-registration","removal checker skipped when the buffered event count repeats between frames","removal checker unregistered when the last type-wide reactor of a component is revoked","removal buffer de-duplicated with Vec::dedup","despawn notification drain stopping at the first notified entity without reactors (and_then)"],
+'C09':["postponed replay only at root","swap_remove in the postponed buffer","exit-boundary poll moved before callback reinsertion","append of surviving postponed commands reversing their order","despawn notification drain stopping (map_while) at an entity without reactors","World::send_system_event deferring to the command queue when called inside a tree"],
+'C10':["racy strong_count()==1 check-then-send","non-recursive collection","unwrap on a missing entity in the collector","collector handling only one entity per call","collector de-duplicating by entity index","repeated setup_auto_despawn replacing the channel","bounded channel + try_send losing notifications past 64 pending","collector loop stopping at the first already-despawned entity"],
+'C11':["tree counter never reset","postponed abort skipping setup (tracker entry/data entity leak)","garbage collection snapshotting the channel once (chained auto-despawn)","queue append stranding live postponed commands in a spare buffer","`once` no longer despawning itself (despawn tracker left reading)","despawn notification drain returning at the first notified entity without reactors"],
+'C12':["tracker taking the last entry instead of the matching one","swap_remove in the postponed buffer","tracker pruning older entries","re-merge of retained postponed commands with push_front reversing them","removal reactions queued in two passes (entity-specific of all entities first)","flush after the removal/despawn poll made conditional (direct apply overtakes an earlier queued event)"],
+'C13':["system re-initialised on its 5th run","exclusive system losing Locals after returning WarnErr","App::add_reactor sharing one system between two calls with the same closure type","cleanup-less run path never promoting New to Initialized (exclusive Locals rebuilt)","exclusive system re-initialised when the world's change tick moved past its last run","CallbackSystem::initialize re-initialising an already initialised system"],
+'C14':["set_if_neq triggering unconditionally","mutation trigger dropped for a despawned entity","ReactiveMut::get_mut triggering on lookup failure","per-component reactor entry dropped when one kind list empties","resource trigger skipped when the resource is absent at application time","mutation fan-out returning early when the entity's EntityReactors component is empty"],
+'C15':["one-off reactor not revoking its triggers","two despawn triggers of one `once` in a batch both firing","`once` registered as persistent (empty bundle / revoked before firing never collected)","token type list de-duplicated so one duplicate registration survives revocation","revoke loop aborted by a `return` at an entity trigger whose entity is gone","once() cleanup moved into a `syscall` closure that is cached by type"],
+'C16':["entity-world-reactor data removed unconditionally","multi-entity remove returning early","EntityReactor::remove ignoring the trigger kind","per-component reactor entry dropped when one kind list empties (react_cache)","EntityReactors::remove removing only the first matching entry","EntityReactor::remove skipping the data cleanup when the bundle names fewer triggers than the reactor's full bundle"],
+'C17':["spawned system not reinserted after the call","SysName ignoring the function type","syscall state dropped on some calls","named_syscall get-or-insert replacing a registered system","spawned_syscall returning Err when the system despawns itself during the call","CallbackSystem re-initialising on every run (change-detection baseline reset)","apply_deferred skipped when has_deferred() is false (Commands inside a ParamSet)","named_syscall keying its system by the converted system type instead of the function type"],
+'C18':["abort path skipping cleanup","postponed commands of a dead system discarded without releasing payloads","insert instead of try_insert on a stale entity","broadcast/entity-event scheduling skipping dead reactors that were counted as readers","revoke loop aborted by a `return` at a stale entity","despawn trigger registration trusting a stale despawn-table entry instead of checking the entity"],
 }
 focus={
 'C01':"src/react/reaction_triggers_impl.rs, src/react/utils.rs (EntityReactors), src/react/react_commands.rs, the schedule_* functions of src/react/react_cache.rs other than the component ones",
@@ -62,7 +62,7 @@ PROPERTY {pid}: {title}
 
 What I want:
 1. Read the library source under {wt}/src (README.md and tests/ show what the existing tests cover) and find a code site where a plausible-looking edit (a refactor, an "optimisation", an off-by-one, a reordered cleanup, a wrong container operation, an early return, a stale cached value, two cooperating sites that each look fine alone, ...) violates the property above.
-2. The violation must need something SPECIFIC to manifest, and for this round I am particularly interested in changes that only show under an UNUSUAL BUT LEGITIMATE WAY OF USING THE PUBLIC API rather than under an unusual internal state: a less-used entry point or overload (World vs Commands vs App vs EntityCommands variants, `*_from` constructors, `SystemCommandCallback::with`, `ReactCommands::with`, `spawn_rc_*`, callbacks in src/ecs/callbacks.rs, ...), a particular shape of user system (exclusive, fallible return types, `ParamSet`, `Local`, change detection, `SystemState`, generic or closure systems of the same type), a particular scale (many reactors / entities / events / triggers crossing some small-vector or capacity threshold), call timing relative to the app lifecycle (before/after plugins, between frames, inside vs outside a reaction tree, during app building), re-registration / re-insertion / re-use of ids after despawn, hierarchy (parents/children), or a combination of two features that are each tested alone. It must NOT be something ordinary use would expose at once, and it must NOT be caught by the existing tests.
+2. The violation must need something SPECIFIC to manifest, and for this round I am particularly interested in DELAYED / SECOND-ORDER manifestation: every individual operation should look right when it happens, and only a LATER, DIFFERENT operation behaves wrongly because of state the change left behind or failed to update — a later reaction tree, a later frame (`App::update`), a later registration / revocation / re-registration, a later garbage collection, reuse of an entity index after a despawn, a second world reactor or a second entity, the Nth occurrence of something. Two cooperating edits in different functions or files (each of which looks fine alone) are especially welcome. It must NOT be something ordinary use would expose at once, and it must NOT be caught by the existing tests.
 3. Mechanisms that were ALREADY used by earlier seeders for this property — pick a DIFFERENT code site and a DIFFERENT mechanism from all of these:
 {t}
    Suggested area to look for a fresh site (earlier seeders concentrated on src/react/syscommand_runner.rs, src/react/command_queue.rs and the component tables of src/react/react_cache.rs — avoid those unless you find nothing else): {focus[pid]}.
